@@ -77,7 +77,9 @@ type Op struct {
 
 // Query is one read that reaches through a relation.
 type Query struct {
-	// K: hf tf hor tor horder torder agg sub tfsub hopdown hopup hoprender cnthf cnttf
+	// K: hf tf hor tor horder torder agg sub tfsub hopdown hopup hoprender cnthf cnttf;
+	// hfid = holders filtered on the related document's _docID only (H(filter: {r: {_docID: {_eq: id}}})),
+	// id = document V of the related collection (modulo all ever created + 1, the extra one never existed)
 	K   string `json:"k"`
 	Rel int    `json:"rel"`
 	// Op/V: the condition on the related document's n.
@@ -277,7 +279,7 @@ func drawLink(t *rapid.T, linkWeight, nullWeight int) Link {
 }
 
 func drawQuery(t *rapid.T, tp topoDef, c Case) Query {
-	kinds := []string{"hf", "hf", "tf", "tf", "tf", "hor", "tor", "horder", "horder", "torder", "torder", "agg", "agg", "sub", "tfsub", "cnthf", "cnttf"}
+	kinds := []string{"hf", "hf", "tf", "tf", "tf", "hor", "tor", "horder", "horder", "torder", "torder", "agg", "agg", "sub", "tfsub", "cnthf", "cnttf", "hfid", "hfid"}
 	if len(tp.Rels) > 1 {
 		kinds = append(kinds, "hopdown", "hopdown", "hopup", "hopup", "hoprender")
 	}
